@@ -492,6 +492,14 @@ def check_expand_pair_all(cx: Cx, ob: Ob) -> None:
         names = [(k, f) for k, f, _, _ in shape]
         from ..rules import guard_atoms
 
+        derived = [seg[1] for seg in segs if seg[0] != "elem" and any(op(x) == "attr" and x[1] == me and x[2] not in ("records",) for x in subterms(seg[1]))]
+        if derived and any(f == "?" for _, f in names):
+            # the URI prefixes are taken from a table of the converter's own (derived state: C05-D7 asks that _index
+            # maintains it), not from the record: that the table lists the record's URI prefixes, canonical first,
+            # is a property of how it is maintained
+            ob.undecide(f"expand_pair_all takes the URI prefixes from `{show(derived[0])[:50]}`, a derived table, not from the record found by get_record: its content and order are not followed")
+            continue
+
         if names == [("elem", "uri_prefix")] and rec is not None and any(a == ("attr", rec, "uri_prefix_synonyms") and pol is False for a, pol in guard_atoms(ctx.guards)):
             # shortcut taken only when the record has no URI-prefix synonyms: the per-synonym part is empty
             names.append(("each", "uri_prefix_synonyms"))
